@@ -103,6 +103,8 @@ struct InFlight {
     id: u64,
     wire: Wire,
     delivered: bool,
+    /// sent in 0-RTT that was then rejected: never delivered, but loss detection will still report it
+    stale: bool,
 }
 
 struct End {
@@ -171,6 +173,8 @@ struct World {
     next_id: u64,
     setup: Setup,
     hs_done: bool,
+    rejected_cfg: bool,
+    pending_ctl: Vec<Value>,
 }
 
 struct Setup {
@@ -225,6 +229,8 @@ fn make_world(cfg: &Value) -> World {
         next_id: 0,
         setup: Setup { cp, sp, cscid, sscid },
         hs_done: false,
+        rejected_cfg: cfg["rejected"].as_bool().unwrap_or(false),
+        pending_ctl: vec![],
     }
 }
 
@@ -264,7 +270,7 @@ impl World {
             let mut j = frame_json(&w);
             j["id"] = json!(ids);
             out.push(j);
-            e.outbox.push(InFlight { id: ids, wire: w, delivered: false });
+            e.outbox.push(InFlight { id: ids, wire: w, delivered: false, stale: false });
             ids += 1;
         }
         for m in md {
@@ -272,7 +278,7 @@ impl World {
             let mut j = frame_json(&w);
             j["id"] = json!(ids);
             out.push(j);
-            e.outbox.push(InFlight { id: ids, wire: w, delivered: false });
+            e.outbox.push(InFlight { id: ids, wire: w, delivered: false, stale: false });
             ids += 1;
         }
         self.next_id = ids;
@@ -306,8 +312,12 @@ impl World {
                     g.initial_scid_from_peer_need_equal(self.setup.cscid).unwrap();
                 }
                 if rejected {
-                    // nothing the client sent in 0-RTT was processed by the server
-                    self.cli.outbox.clear();
+                    // nothing the client sent in 0-RTT was processed by the server; the packets stay in the
+                    // client's sent journal, so their frames will be reported lost later on
+                    self.cli.outbox.retain(|f| matches!(f.wire, Wire::Stream(..)));
+                    for f in self.cli.outbox.iter_mut() {
+                        f.stale = true;
+                    }
                 }
                 self.cli.streams.revise_params(rejected, &self.setup.sp);
                 self.cli.flow.sender.revise_max_data(rejected, self.setup.sp.get(ParameterId::InitialMaxData).unwrap());
@@ -448,7 +458,7 @@ impl World {
                     j["id"] = json!(ids);
                     j["data_ok"] = json!(ok);
                     frames.push(j);
-                    e.outbox.push(InFlight { id: ids, wire: w, delivered: false });
+                    e.outbox.push(InFlight { id: ids, wire: w, delivered: false, stale: false });
                     ids += 1;
                 }
                 let avail = Self::conn_avail(e);
@@ -466,10 +476,11 @@ impl World {
                 // deliver (a copy of) the k-th in-flight frame of `side` to the peer
                 let k = a[2].as_u64().unwrap() as usize;
                 let (e, peer) = self.ends(&side);
-                if peer.dead.is_some() || e.outbox.is_empty() {
+                let live: Vec<usize> = e.outbox.iter().enumerate().filter(|(_, f)| !f.stale).map(|(i, _)| i).collect();
+                if peer.dead.is_some() || live.is_empty() {
                     return None;
                 }
-                let k = k % e.outbox.len();
+                let k = live[k % live.len()];
                 let (id, wire) = (e.outbox[k].id, e.outbox[k].wire.clone());
                 e.outbox[k].delivered = true;
                 let is_stream = matches!(wire, Wire::Stream(..));
@@ -509,6 +520,37 @@ impl World {
                 fj["id"] = json!(id);
                 json!({"ev": "deliver", "from": side, "frame": fj, "res": res, "fresh": fresh})
             }
+            "inject" => {
+                // a frame the peer's code never produced: crafted by a hostile / buggy `side`
+                if !self.hs_done {
+                    return None;
+                }
+                let spec = &a[2];
+                let sid = sid_from(spec["sid"].as_u64().unwrap());
+                let vi = |k: &str| VarInt::from_u64(spec[k].as_u64().unwrap()).unwrap();
+                let wire = match spec["t"].as_str().unwrap() {
+                    "stream" => {
+                        let (off, len) = (spec["off"].as_u64().unwrap(), spec["len"].as_u64().unwrap());
+                        let mut f = StreamFrame::new(sid, off, len as usize);
+                        f.set_eos_flag(spec["fin"].as_bool().unwrap());
+                        let s = sid_json(sid);
+                        Wire::Stream(f, Bytes::from((off..off + len).map(|i| sbyte(s, i)).collect::<Vec<u8>>()))
+                    }
+                    "reset" => Wire::Ctl(StreamCtlFrame::ResetStream(ResetStreamFrame::new(sid, VarInt::from_u32(5), vi("final")))),
+                    "stop" => Wire::Ctl(StreamCtlFrame::StopSending(StopSendingFrame::new(sid, VarInt::from_u32(6)))),
+                    "max_stream_data" => Wire::Ctl(StreamCtlFrame::MaxStreamData(MaxStreamDataFrame::new(sid, vi("v")))),
+                    o => panic!("unknown inject {o}"),
+                };
+                let id = self.next_id;
+                self.next_id += 1;
+                let (e, _) = self.ends(&side);
+                e.outbox.insert(0, InFlight { id, wire, delivered: false, stale: false });
+                let ev = self.step(&json!(["deliver", side, 0]));
+                self.ends(&side).0.outbox.retain(|f| f.id != id);
+                let mut ev = ev?;
+                ev["inj"] = json!(true);
+                return Some(ev);
+            }
             "lose" | "ack" => {
                 if !self.hs_done {
                     return None;
@@ -538,42 +580,77 @@ impl World {
     }
 
     /// fair finish: no more loss; deliver, acknowledge, read and re-pack until nothing moves
+    fn step_c(&mut self, op: &Value, out: &mut Out) -> Option<Value> {
+        let ev = self.step(op);
+        for side in ["cli", "srv"] {
+            let frames = self.collect(side);
+            if !frames.is_empty() {
+                // emitted after the event that caused them (the caller emits `ev` first when it wants it)
+                self.pending_ctl.push(json!({"ev": "ctl", "side": side, "frames": frames}));
+            }
+        }
+        let _ = out;
+        ev
+    }
+    fn flush_ctl(&mut self, out: &mut Out) {
+        for c in std::mem::take(&mut self.pending_ctl) {
+            out.emit(&c);
+        }
+    }
+
     fn settle(&mut self, out: &mut Out) -> bool {
-        if let Some(ev) = self.step(&json!(["hs", "both", false])) {
+        let rejected = self.rejected_cfg;
+        if let Some(ev) = self.step_c(&json!(["hs", "both", rejected]), out) {
             out.emit(&ev);
+        }
+        self.flush_ctl(out);
+        // loss detection eventually reports every frame of the rejected 0-RTT packets
+        while let Some(pos) = self.cli.outbox.iter().position(|f| f.stale) {
+            let inf = self.cli.outbox.remove(pos);
+            if let Wire::Stream(f, _) = &inf.wire {
+                self.cli.streams.may_loss_data(f);
+                let mut fj = frame_json(&inf.wire);
+                fj["id"] = json!(inf.id);
+                out.emit(&json!({"ev": "lose", "side": "cli", "frame": fj, "stale": true}));
+            }
         }
         for _round in 0..400 {
             let mut progress = false;
             for side in ["cli", "srv"] {
-                for op in [json!(["ctl", side]), json!(["pack", side, 1200])] {
-                    if let Some(ev) = self.step(&op) {
-                        let moved = ev["frames"].as_array().map(|f| !f.is_empty()).unwrap_or(false);
-                        if moved {
-                            progress = true;
-                            out.emit(&ev);
-                        }
+                if let Some(ev) = self.step_c(&json!(["pack", side, 1200]), out) {
+                    let moved = ev["frames"].as_array().map(|f| !f.is_empty()).unwrap_or(false);
+                    if moved {
+                        progress = true;
+                        out.emit(&ev);
                     }
                 }
+                if !self.pending_ctl.is_empty() {
+                    progress = true;
+                }
+                self.flush_ctl(out);
                 loop {
                     let (e, peer) = self.ends(side);
-                    if e.outbox.is_empty() || peer.dead.is_some() {
+                    if e.outbox.iter().all(|f| f.stale) || peer.dead.is_some() {
                         break;
                     }
-                    let is_stream = matches!(e.outbox[0].wire, Wire::Stream(..));
-                    if let Some(ev) = self.step(&json!(["deliver", side, 0])) {
+                    let is_stream = matches!(e.outbox.iter().find(|f| !f.stale).unwrap().wire, Wire::Stream(..));
+                    if let Some(ev) = self.step_c(&json!(["deliver", side, 0]), out) {
                         out.emit(&ev);
                         progress = true;
                     }
+                    self.flush_ctl(out);
                     if is_stream {
-                        if let Some(ev) = self.step(&json!(["ack", side, 0])) {
+                        if let Some(ev) = self.step_c(&json!(["ack", side, 0]), out) {
                             out.emit(&ev);
                         }
+                        self.flush_ctl(out);
                     }
                 }
                 // accept and read everything
                 for dir in ["bi", "uni"] {
                     loop {
-                        let ev = self.step(&json!(["accept", side, dir])).unwrap();
+                        let ev = self.step_c(&json!(["accept", side, dir]), out).unwrap();
+                        self.flush_ctl(out);
                         if ev["res"] != "ok" {
                             break;
                         }
@@ -584,11 +661,12 @@ impl World {
                 let sids: Vec<u64> = self.ends(side).0.readers.keys().copied().collect();
                 for sid in sids {
                     loop {
-                        let Some(ev) = self.step(&json!(["read", side, sid, 64])) else { break };
+                        let Some(ev) = self.step_c(&json!(["read", side, sid, 64]), out) else { break };
                         let n = ev["n"].as_u64().unwrap();
                         if ev["res"] == "ok" {
                             out.emit(&ev);
                         }
+                        self.flush_ctl(out);
                         if n == 0 {
                             break;
                         }
@@ -619,37 +697,61 @@ impl World {
     }
 }
 
+/// A loss report for a frame of the rejected 0-RTT flight hits a send buffer that forgot its state
+/// (debug assertion in BufMap::may_loss): classified so that the trace spec can name the deviation.
+fn panic_class(msg: &str, after_rejection: bool) -> &'static str {
+    if after_rejection && msg.starts_with("Lost Range") { "stale_loss" } else { "other" }
+}
+
 fn run_one(hdr: &Value, ops: &[Value], out: &mut Out) {
     out.emit(&json!({"ev": "reset", "cfg": hdr}));
-    let r = guarded(|| {
-        let mut w = make_world(hdr);
-        let mut evs = vec![];
-        for op in ops {
-            if let Some(ev) = w.step(op) {
-                evs.push(ev);
-            }
+    let mut w = match guarded(|| make_world(hdr)) {
+        Ok(w) => w,
+        Err(msg) => {
+            out.emit(&json!({"ev": "panic", "op": "setup", "msg": msg, "class": "other"}));
+            return;
         }
-        (w, evs)
-    });
-    match r {
-        Ok((mut w, evs)) => {
-            for ev in &evs {
-                out.emit(ev);
-            }
-            if hdr["settle"].as_bool().unwrap_or(true) {
-                match guarded(|| {
-                    let mut buf_out = Out::create("/dev/null");
-                    std::mem::swap(out, &mut buf_out);
-                    let q = w.settle(&mut buf_out);
-                    w.finals(&mut buf_out, q);
-                    std::mem::swap(out, &mut buf_out);
-                }) {
-                    Ok(()) => {}
-                    Err(msg) => out.emit(&json!({"ev": "panic", "op": "settle", "msg": msg})),
+    };
+    for op in ops {
+        // frames an endpoint queues (MAX_DATA, MAX_STREAM_DATA, MAX_STREAMS, RESET_STREAM ...) take effect for its own
+        // enforcement at once: observe them right after the call that produced them
+        match guarded(|| {
+            let ev = w.step(op);
+            let mut ctl = vec![];
+            for side in ["cli", "srv"] {
+                let frames = w.collect(side);
+                if !frames.is_empty() {
+                    ctl.push(json!({"ev": "ctl", "side": side, "frames": frames}));
                 }
             }
+            (ev, ctl)
+        }) {
+            Ok((ev, ctl)) => {
+                if let Some(ev) = ev {
+                    out.emit(&ev);
+                }
+                for c in ctl {
+                    out.emit(&c);
+                }
+            }
+            Err(msg) if msg == "\u{0}" => {}
+            Err(msg) => {
+                out.emit(&json!({"ev": "panic", "op": op, "msg": msg, "class": panic_class(&msg, w.hs_done && w.rejected_cfg)}));
+                // locks inside the world are poisoned now; dropping it would panic again inside destructors
+                std::mem::forget(w);
+                return;
+            }
         }
-        Err(msg) => out.emit(&json!({"ev": "panic", "op": "run", "msg": msg})),
+    }
+    if hdr["settle"].as_bool().unwrap_or(true) {
+        let r = guarded(|| {
+            let q = w.settle(out);
+            w.finals(out, q);
+        });
+        if let Err(msg) = r {
+            out.emit(&json!({"ev": "panic", "op": "settle", "msg": msg, "class": panic_class(&msg, w.rejected_cfg)}));
+            std::mem::forget(w);
+        }
     }
 }
 
@@ -676,6 +778,7 @@ pub fn random(args: &[String]) -> i32 {
     let depth: u64 = args[2].parse().unwrap();
     let mut out = Out::create(&args[3]);
     let mut rng = Rng(seed);
+    let sides_all = ["cli", "srv"];
     for run in 0..runs {
         let small = |rng: &mut Rng| match rng.below(6) { 0 => 0, 1 => rng.range(1, 8), 2 => rng.range(8, 40), 3 => rng.range(40, 200), _ => rng.range(200, 3000) };
         let side_cfg = |rng: &mut Rng| json!({
@@ -693,14 +796,37 @@ pub fn random(args: &[String]) -> i32 {
             }
             r
         };
-        let cfg = json!({"cli": side_cfg(&mut rng), "srv": srv_cfg, "rem": rem, "settle": true});
+        let cfg = json!({"cli": side_cfg(&mut rng), "srv": srv_cfg, "rem": rem, "settle": true, "rejected": rejected});
         let mut ops = vec![cfg];
         let hs_at = if zero_rtt { rng.range(3, depth / 2) } else { 0 };
+        let hostile = run % 3 == 2;
+        if !zero_rtt {
+            ops.push(json!(["hs", "both", false]));
+            for side in sides_all {
+                for _ in 0..rng.range(1, 3) {
+                    ops.push(json!(["open", side, "bi"]));
+                    ops.push(json!(["open", side, "uni"]));
+                }
+            }
+        }
         // stream ids that may exist: index 0..3 of each kind
         let sides = ["cli", "srv"];
         for step in 0..depth {
-            if step == hs_at {
+            if zero_rtt && step == hs_at {
                 ops.push(json!(["hs", "both", rejected]));
+            }
+            if hostile && step >= 6 && rng.chance(1, 3) || rng.chance(1, 25) {
+                let side = sides[rng.below(2) as usize];
+                let sid = rng.below(6) * 4 + rng.below(4);
+                let n = |rng: &mut Rng| match rng.below(5) { 0 => 0, 1 => rng.range(1, 12), 2 => rng.range(12, 220), 3 => rng.range(150, 3100), _ => rng.range(1, 40) };
+                let spec = match rng.below(10) {
+                    0..=5 => json!({"t": "stream", "sid": sid, "off": n(&mut rng), "len": n(&mut rng), "fin": rng.chance(1, 3)}),
+                    6 | 7 => json!({"t": "reset", "sid": sid, "final": n(&mut rng)}),
+                    8 => json!({"t": "stop", "sid": sid}),
+                    _ => json!({"t": "max_stream_data", "sid": sid, "v": n(&mut rng)}),
+                };
+                ops.push(json!(["inject", side, spec]));
+                continue;
             }
             let side = if step < hs_at { "cli" } else { sides[rng.below(2) as usize] };
             let mine = if side == "cli" { [0u64, 2] } else { [1u64, 3] };
